@@ -19,6 +19,7 @@ _MISSING = None  # set below
 class DateV(object):
     """datetime.datetime as integer microseconds since 0001-01-01"""
     __slots__ = ('us',)
+    always_truthy = True
 
     def __init__(self, us):
         self.us = us
@@ -539,6 +540,8 @@ class Library(object):
             return [mk(a), mk(b), mk(c)]
         # structured string: decompose a concat at literal separators
         pieces = self._concat_pieces(t)
+        if pieces is None:
+            pieces = [t]
         if pieces is not None:
             lines = [[]]
             ok = True
@@ -554,7 +557,7 @@ class Library(object):
                         ok = False
                         break
                     lines[-1].append(p)
-            if ok and len(lines) > 1:
+            if ok:
                 return [mk(z3.Concat(*ln)) if len(ln) > 1 else mk(ln[0])
                         for ln in lines]
         ctx.used_axioms.add('str.split: len>=1; element i has no separator '
@@ -878,6 +881,25 @@ class Library(object):
         return mk(z3.And(*conj))
 
     def order(self, op, a, b):
+        if isinstance(a, tuple) and isinstance(b, tuple):
+            I = self.I
+            for x, y in zip(a, b):
+                if I.truth(self.equals(x, y), 'tuple-cmp-eq'):
+                    continue
+                return self.order(op, x, y)
+            return self.order(op, len(a), len(b))
+        if _is_boolish(a) and _is_boolish(b) and (is_sym(a) or is_sym(b)):
+            a = mk(z3.If(z3bool(a), z3.IntVal(1), z3.IntVal(0)))
+            b = mk(z3.If(z3bool(b), z3.IntVal(1), z3.IntVal(0)))
+        if _is_str(a) and _is_str(b) and (is_sym(a) or is_sym(b)):
+            x, y = z3str(a), z3str(b)
+            if isinstance(op, ast.Lt):
+                return mk(x < y)
+            if isinstance(op, ast.LtE):
+                return mk(x <= y)
+            if isinstance(op, ast.Gt):
+                return mk(y < x)
+            return mk(y <= x)
         if isinstance(a, DateV) and isinstance(b, DateV):
             x, y = a.us, b.us
         elif _is_int(a) and _is_int(b):
@@ -959,6 +981,15 @@ class Library(object):
         if isinstance(o, TupleObj):
             o = o.items
         if isinstance(o, (list, tuple)):
+            if is_sym(k) and k.ty == 'int':
+                n = len(o)
+                pos = list(range(-n, n))
+                conds = [k.t == p for p in pos]
+                conds.append(z3.Or(k.t >= n, k.t < -n))
+                d = I.ctx.fork(conds, 'list-index')
+                if d == len(pos):
+                    raise PyExc(self.make_exc('IndexError', 'list index out of range'))
+                return o[pos[d]]
             if is_sym(k):
                 raise OutsideSubset('list[symbolic]')
             if not isinstance(k, int):
@@ -1104,7 +1135,43 @@ class Library(object):
         return a[0].issubclass(a[1])
 
     def bi_sorted(self, I, a, k):
-        raise OutsideSubset('sorted() needs a contract-level model')
+        """sorted(xs, key=f) for a concrete-shape list: keys are computed in
+        order, every pair of keys is compared (so an incomparable pair raises
+        TypeError, as some comparison would in CPython), and the result is an
+        order-respecting permutation (forked; n <= 4)."""
+        xs = list(I.iterate(a[0]))
+        key = k.get('key')
+        if k.get('reverse'):
+            raise OutsideSubset('sorted(reverse=...)')
+        I.ctx.used_axioms.add('sorted(): computes all keys, raises TypeError '
+                              'iff some pair of keys is incomparable, returns '
+                              'a stable order-respecting permutation')
+        keys = [I.call(key, [x], {}) if key is not None else x for x in xs]
+        n = len(xs)
+        if n > 4:
+            raise OutsideSubset('sorted() of more than 4 elements')
+        lt = {}
+        for i in range(n):
+            for j in range(n):
+                if i != j:
+                    lt[(i, j)] = self.order(ast.Lt(), keys[i], keys[j])
+        import itertools
+        conds = []
+        perms = list(itertools.permutations(range(n)))
+        for perm in perms:
+            c = []
+            for u in range(n - 1):
+                i, j = perm[u], perm[u + 1]
+                # stable: i before j iff key_i < key_j, or equal and i < j
+                if i < j:
+                    c.append(z3.Not(z3bool(lt[(j, i)])))
+                else:
+                    c.append(z3bool(lt[(i, j)]))
+            conds.append(z3.And(*c) if c else z3.BoolVal(True))
+        if n <= 1:
+            return list(xs)
+        d = I.ctx.fork(conds, 'sorted-perm')
+        return [xs[i] for i in perms[d]]
 
     def bi_enumerate(self, I, a, k):
         items = list(I.iterate(a[0]))
@@ -1301,6 +1368,8 @@ class Library(object):
         dt.attrs['strptime'] = StaticM(B('datetime.strptime',
                                          self.lib_strptime))
         dt.attrs['now'] = StaticM(B('datetime.now', self.lib_now))
+        dt.attrs['min'] = DateV(z3.IntVal(0))
+        dt.attrs['max'] = DateV(z3.IntVal(DATE_MAX_US))
         self.datetime_cls = dt
         r['datetime.datetime'] = dt
         r['datetime.timedelta'] = B('timedelta', self.lib_timedelta)
